@@ -1283,6 +1283,67 @@ func ruleC03Parse(c *Checker) {
 				return x.Parent() == rd && guarded(x.Block(), bangAll)
 			}, 3)
 			c.check(okg, R, name, "negationsAfter set on '!'", p.Pos(st.Pos()), "earlier rules learn that a negation follows", "negationsAfter is set outside the negation branch")
+			// the marking loop marks every rule it visits: its only way on to the next rule without marking this one
+			// is the way out (the rule is marked already, and with it all before it — the marks form a prefix)
+			if inLoop(st.Block()) {
+				head := innerLoopHead(st.Block())
+				isMark := func(x ssa.Instruction) bool {
+					s2, ok := x.(*ssa.Store)
+					if !ok {
+						return false
+					}
+					f2, ok := s2.Addr.(*ssa.FieldAddr)
+					return ok && fieldOf(f2) == naVar
+				}
+				inner := map[*ssa.BasicBlock]bool{head: true}
+				for _, lb := range ex2Blocks(st.Block().Parent()) {
+					if lb != head && blockDominates(head, lb) && reaches(lb, head) {
+						inner[lb] = true
+					}
+				}
+				for _, sb := range head.Succs {
+					if !inner[sb] || sb == head {
+						continue
+					}
+					// inside the loop, from the body's entry back to the header: a mark on every way
+					ok2 := true
+					var off ssa.Instruction
+					seen := map[*ssa.BasicBlock]bool{}
+					work := []*ssa.BasicBlock{sb}
+					for len(work) > 0 && ok2 {
+						x := work[len(work)-1]
+						work = work[:len(work)-1]
+						if seen[x] {
+							continue
+						}
+						seen[x] = true
+						marked := false
+						for _, in2 := range x.Instrs {
+							if isMark(in2) {
+								marked = true
+								break
+							}
+						}
+						if marked {
+							continue
+						}
+						for _, sx := range x.Succs {
+							if sx == head {
+								ok2, off = false, x.Instrs[len(x.Instrs)-1]
+								break
+							}
+							if inner[sx] {
+								work = append(work, sx)
+							}
+						}
+					}
+					pos := p.Pos(st.Pos())
+					if off != nil && off.Pos().IsValid() {
+						pos = p.Pos(off.Pos())
+					}
+					c.check(ok2, R, name, "every rule visited by the marking loop is marked", pos, "no way round the mark inside the loop", "the marking loop can pass a rule without marking it and go on: the loop's early exit relies on the marks forming a prefix, so a later negation stops at the first marked rule and never reaches the unmarked one behind it — a directory it excludes is reported as dominating and skipped whole")
+				}
+			}
 		})
 	}
 	c.check(nNA > 0, R, name, "earlier rules flagged", p.Pos(rd.Pos()), "a negation flags the rules before it", "a negation no longer flags the rules before it (directories would be pruned although something below is re-included)")
@@ -1557,3 +1618,24 @@ func inlineRuleMatch(p *Prog) *ssa.Call {
 	}
 	return out
 }
+
+// innerLoopHead: the header of the innermost natural loop b lies in (the nearest dominator of b, or b itself,
+// that has a back edge from a block it dominates and from which b is reached round the loop).
+func innerLoopHead(b *ssa.BasicBlock) *ssa.BasicBlock {
+	for d := b; d != nil; d = idomOf(d) {
+		back := false
+		for _, pr := range d.Preds {
+			if pr == d || blockDominates(d, pr) {
+				if pr == b || reaches(b, pr) || b == d {
+					back = true
+				}
+			}
+		}
+		if back {
+			return d
+		}
+	}
+	return loopHeadOf(b)
+}
+
+func ex2Blocks(fn *ssa.Function) []*ssa.BasicBlock { return fn.Blocks }
